@@ -148,7 +148,7 @@ AddConstraint(c) ==
   /\ Bounded("AddConstraint") /\ c \in ConNames /\ c \notin cons /\ Cardinality(cons) < 2
   /\ cons' = cons \cup {c}
   /\ dirty' = Change({"K"}, dirty)
-  /\ stale' = IF "constraint_no_mark" \in Faults THEN stale ELSE MarkFrom({"parameter_constraints"}, stale)
+  /\ stale' = IF "constraint_no_mark" \in Faults THEN stale ELSE MarkFrom({"parameter_constraints"} \cap DOMAIN GKind, stale)      \* (a graph without that node: nothing to mark)
   /\ act' = [name |-> "AddConstraint", c |-> c] /\ obs' = [kind |-> "none"]
   /\ UNCHANGED <<frozen, costNode, implicitNoErr, status, pidx, fixed, limited, dataSet, didFit, ownSrc>>
 
